@@ -95,6 +95,13 @@ def parse(text):
                 cur.locals["_0"] = ret or "()"
                 fns.setdefault(name, cur) if name not in fns else fns.setdefault(name + "#dup", cur)
                 continue
+            m1 = re.match(r"^(?:const|static) (.*?): (.*?) = const (.*);$", line)
+            if m1:
+                f = Function(m1.group(1), [], m1.group(2), line)
+                f.locals["_0"] = m1.group(2)
+                f.blocks["bb0"] = ["_0 = const " + m1.group(3), "return"]
+                consts[m1.group(1)] = f
+                continue
             m = CONST_RE.match(line)
             if m:
                 cur = Function(m.group(1), [], m.group(2), line)
